@@ -13,6 +13,7 @@ import (
 	authtypes "github.com/cosmos/cosmos-sdk/x/auth/types"
 	"pgregory.net/rapid"
 
+	vestingtypes "github.com/cosmos/cosmos-sdk/x/auth/vesting/types"
 	"github.com/jackalLabs/canine-chain/v4/x/storage"
 	storagetypes "github.com/jackalLabs/canine-chain/v4/x/storage/types"
 
@@ -28,6 +29,7 @@ type c15World struct {
 	shutdownAfterPriceChange bool
 	sw                       *storWorld // the same fork seen as a storage world (files, proofs, reward blocks)
 	burns                    int
+	vesting                  int
 	priceChangedSince        map[string]bool
 }
 
@@ -284,6 +286,24 @@ func TestC15(t *testing.T) {
 				if d := before.Diff(w.f.Snapshot()); len(d) != 0 {
 					fail("C15/edit-moved-funds", fmt.Sprintf("a provider-record edit changed balances: %v", d))
 				}
+			},
+			// an account whose whole balance is still vesting (locked): it owns enough for the collateral but cannot spend it
+			"vestingRegistrant": func(rt *rapid.T) {
+				if w.vesting >= 3 {
+					rt.Skip()
+				}
+				acc := chain.Acc(30 + w.vesting)
+				w.vesting++
+				price := w.c.App.StorageKeeper.GetParams(w.f.Ctx).CollateralPrice
+				locked := sdk.NewCoins(sdk.NewInt64Coin("ujkl", price+rapid.Int64Range(0, 5000).Draw(rt, "extraLocked")))
+				funder := chain.Acc(chain.AccFaucet)
+				r := w.f.Exec(vestingtypes.NewMsgCreateVestingAccount(funder.Addr, acc.Addr, locked, w.f.Time().Unix()+1_000_000_000, true))
+				w.logf("vesting account acc%d created with %s locked -> %s", acc.Index, locked, r)
+				if !r.OK() {
+					return
+				}
+				rec.Count("vesting-registrants")
+				fail(w.init(acc, "https://vesting.example.com"))
 			},
 			"price": func(rt *rapid.T) {
 				w.setPrice(rapid.SampledFrom([]int64{2, 3, 4_000, 9_999, 10_000, 10_001, 15_000, 29_999, 30_000, 30_001, 1_000_000}).Draw(rt, "price"))
